@@ -14,15 +14,29 @@ package validator
 //@   ensures v.depth == old(v.depth) + (isOpeningEvent(jsonLexeme.lexEventType) ? 1 : 0 - 1)
 //@   ensures result1 == (v.depth == 0) && len(result0) == 0
 
-// The literal judgment. Its DEFINITION as litOK is assumed (see 42_nodes.gvs);
-// the rule-by-rule content of the judgment is the subject of C02.
+// The literal judgment. Its DEFINITION as litOK (the judgment shared by Check
+// and Validate, C04) is a definitional clause; the body is verified against the
+// two statements below (C01 kind matrix, C02 "a null admitted by nullable:true
+// is accepted whatever other rules are present"). The rules themselves are run
+// through the LiteralValidator interface (frame assumed; the in-repo rules are
+// verified separately under C02).
+// the key collector only appends to the captured slice
+//@ func ValidateLiteralValue$1(k, _)
+//@   props C02
+//@   nopanic
+//@   modifies *
+
 //@ func ValidateLiteralValue(node, jsonValue)
-//@   props C04
-//@   trusted "definition of litOK: the literal judgment is what this function decides; every panic it raises is a library error (errors.Err) or a positioned DocumentError"
+//@   props C01 C02 C04
+//@   assumes isNode(node) && consReady(node) && rulesTyped(node)
 //@   maypanic
+//@   modifies *
+//@   ensures beq(jsonValue, "null") && hasRule(node, constraint.NullableConstraintType) && boolOf(consOf(node).data[constraint.NullableConstraintType]) ==> normal
+//@   ensures !hasRule(node, constraint.EnumConstraintType) && !kindOK(litKind(jsonValue), jtypeOf(node), hasRule(node, constraint.NullableConstraintType)) ==> panics
 //@   defines panics <==> !litOK(node, jsonValue)
-//@   defines panics ==> (typeis(pv, errors.DocumentError) || errWF(pv))
 //@   defines panics ==> (typeis(pv, errors.DocumentError) == litPosErr(node, jsonValue))
+//@   ensures panics && litKind(jsonValue) != 0 ==> (typeis(pv, errors.DocumentError) || errWF(pv))
+//@   loop 0 invariant consOf(node).mx.held == 0
 
 // C04/C01: a literal leaf is judged by ValidateLiteralValue on the bytes of the LiteralEnd event
 //@ func (*literalValidator).feed(jsonLexeme)
